@@ -1,10 +1,163 @@
-"""In-memory mutants for the rule self-test (thorough tier)."""
+"""In-memory mutants for the rule self-test (thorough tier).
+
+Each mutant replaces one source fragment of one file *in memory* (nothing is
+written anywhere) and names the rule that must report it.  A mutant whose
+anchor text is not found in the current tree is skipped (the tree was edited),
+never counted as a miss.  The self-test is also what shows that a rule whose
+expected count on a healthy tree is zero can fire at all."""
+import os
+import sys
+import time
+from concurrent.futures import ProcessPoolExecutor
+
+from . import loader
+
+PM = 'chi/_population_models.py'
+EM = 'chi/_error_models.py'
+LP = 'chi/_log_pdfs.py'
+MM = 'chi/_mechanistic_models.py'
+PR = 'chi/_predictive_models.py'
+PF = 'chi/_population_filters.py'
+CM = 'chi/_covariate_models.py'
+PB = 'chi/_problems.py'
+INF = 'chi/_inference.py'
+TS = 'chi/plots/_time_series.py'
+
+# (id, [properties], file, old, new, expected rule, nth occurrence or None)
 MUTANTS = []
 
 
-def selftest(pid, ctx):
-    return dict(mutants=0, reported=0, skipped=0, missed=[])
+def M(mid, props, rel, old, new, rule, nth=0):
+    MUTANTS.append(dict(id=mid, props=props, file=rel, old=old, new=new,
+                        rule=rule, nth=nth))
+
+
+def apply_mutant(m, sources):
+    src = sources[m['file']]
+    idx = -1
+    start = 0
+    for _ in range(m['nth'] + 1):
+        idx = src.find(m['old'], start)
+        if idx < 0:
+            return None
+        start = idx + 1
+    return src[:idx] + m['new'] + src[idx + len(m['old']):]
+
+
+def _run_one(args):
+    m, pid = args
+    from . import run as runner
+    base = loader.Repo()
+    new = apply_mutant(m, base.sources)
+    if new is None:
+        return m['id'], pid, 'skipped', ''
+    try:
+        repo = loader.Repo(overrides={m['file']: new})
+    except loader.AnalysisError as e:
+        return m['id'], pid, 'skipped', 'mutant does not parse: %s' % e
+    rc, ev, ctx = runner.run_property(pid, 'quick', repo=repo, write=False,
+                                      quiet=True, selftest=False)
+    hits = [f for f in ctx.findings if f['rule'] == m['rule']]
+    if hits:
+        return m['id'], pid, 'reported', '%s %s' % (
+            hits[0]['construct'], hits[0]['key'])
+    return m['id'], pid, 'missed', '; '.join(
+        f['rule'] for f in ctx.findings)[:100] + ' | ' + '; '.join(
+        ctx.errors)[:200]
+
+
+def selftest(pid, ctx=None, jobs=None):
+    todo = [(m, pid) for m in MUTANTS if pid in m['props']]
+    out = dict(mutants=len(todo), reported=0, skipped=0, missed=[])
+    if not todo:
+        return out
+    jobs = jobs or min(16, os.cpu_count() or 4, len(todo))
+    with ProcessPoolExecutor(max_workers=jobs) as ex:
+        for mid, p, status, info in ex.map(_run_one, todo):
+            if status == 'reported':
+                out['reported'] += 1
+            elif status == 'skipped':
+                out['skipped'] += 1
+            else:
+                out['missed'].append('%s: %s' % (mid, info))
+    if ctx is not None and out['missed']:
+        ctx.note('self-test', 'mutants not reported: %s' % '; '.join(
+            out['missed']))
+    return out
 
 
 def main(pid=None):
-    return 0
+    from . import props
+    pids = [pid] if pid else sorted(props.PROPS)
+    bad = 0
+    t0 = time.time()
+    for p in pids:
+        r = selftest(p)
+        print('%s self-test: %d mutants, %d reported, %d skipped, %d missed'
+              % (p, r['mutants'], r['reported'], r['skipped'],
+                 len(r['missed'])))
+        for m in r['missed']:
+            print('   MISSED', m)
+            bad += 1
+    print('self-test wall %.1fs' % (time.time() - t0))
+    return 1 if bad else 0
+
+
+# =============================================================================
+# C04 error models
+# =============================================================================
+M('em-sign', ['C04', 'C03'], EM,
+  "- np.sum((model_output - observations)**2) / sigma**2 / 2",
+  "- np.sum((model_output - observations)**2) / sigma**2", 'R04.2')
+M('em-power', ['C04', 'C03'], EM, "squared_error / sigma_tot**3 * model_output",
+  "squared_error / sigma_tot**2 * model_output", 'R04.4')
+M('em-jacobian', ['C04'], EM, "            - np.log(observations) \\\n",
+  "", 'R04.3')
+M('em-guard-lt', ['C04'], EM, "if sigma <= 0:", "if sigma < 0:", 'R04.1')
+M('em-guard-len', ['C04'], EM, "model_sensitivities.shape[1] + 2",
+  "model_sensitivities.shape[1] + 1", 'R04.1')
+M('em-order', ['C04', 'C03'], EM,
+  "np.concatenate((dpsi, dsigma_base, dsigma_rel))",
+  "np.concatenate((dpsi, dsigma_rel, dsigma_base))", 'R04.4')
+M('em-lognormal-mean', ['C04'], EM,
+  "np.log(model_output) - sigma**2 / 2\n                - np.log(observations)\n            )**2) / sigma**2 / 2",
+  "np.log(model_output) + sigma**2 / 2\n                - np.log(observations)\n            )**2) / sigma**2 / 2",
+  'R04.2')
+
+# =============================================================================
+# C05 / C06 population models
+# =============================================================================
+M('pm-trunc-dsigma', ['C05', 'C03'], PM,
+  "-1 + (psi - mus)**2 / sigmas**2\n                + _norm_pdf",
+  "-1 + (psi - mus)**2 / sigmas**2\n                - _norm_pdf", 'R05.2')
+M('pm-gauss-dstd', ['C05', 'C03'], PM,
+  "dstd = (-1 + (psi - mus)**2 / vars) / np.sqrt(vars)",
+  "dstd = (-1 + (psi - mus)**2 / vars) / vars", 'R05.2')
+M('pm-lognormal-jac', ['C05'], PM,
+  "np.log(2 * np.pi * vars) / 2 + np.log(observations)\n",
+  "np.log(2 * np.pi * vars) / 2\n", 'R05.2')
+M('pm-lognormal-dpsi', ['C05', 'C03'], PM,
+  "dpsi_dtheta[:, 1] = etas * psi", "dpsi_dtheta[:, 1] = etas", 'R05.2')
+M('pm-noncentred-deta', ['C05', 'C03'], PM,
+  "dlogp_deta = dlogp_dpsi * dpsi_deta + deta",
+  "dlogp_deta = dlogp_dpsi + deta", 'R05.2')
+M('pm-upstream-dropped', ['C05', 'C03'], PM,
+  "        if dlogp_dpsi is not None:\n            dpsi += dlogp_dpsi\n\n        return self._shape(score, dpsi, dtheta, reduce, flattened)\n\n    def get_mean_and_std",
+  "        return self._shape(score, dpsi, dtheta, reduce, flattened)\n\n    def get_mean_and_std",
+  'R05.2')
+M('pm-ndim-wrong-var', ['C05'], PM,
+  "        elif parameters.ndim == 2:\n            parameters = parameters[np.newaxis, ...]\n\n        # Parse parameters\n        mus = parameters[:, 0]\n        sigmas = parameters[:, 1]\n\n        if np.any(sigmas <= 0):",
+  "        elif parameters.ndim == 2:\n            n_parameters = parameters[np.newaxis, ...]\n\n        # Parse parameters\n        mus = parameters[:, 0]\n        sigmas = parameters[:, 1]\n\n        if np.any(sigmas <= 0):",
+  'R05.1')
+M('pm-sample-scale', ['C06'], PM,
+  "samples = rng.normal(\n            loc=mus, scale=sigmas, size=sample_shape)",
+  "samples = rng.normal(\n            loc=mus, scale=sigmas**2, size=sample_shape)",
+  'R06.2')
+M('pm-lognormal-moment', ['C06'], PM,
+  "mean = np.exp(mus + sigmas**2 / 2)", "mean = np.exp(mus + sigmas / 2)",
+  'R06.3')
+M('em-sample-lognormal-mean', ['C06'], EM,
+  "mean_log = -sigma_log**2 / 2", "mean_log = -sigma_log / 2", 'R06.1')
+M('em-sample-mult', ['C06'], EM,
+  "samples = model_output + model_output * rel_samples",
+  "samples = model_output + rel_samples", 'R06.1')
